@@ -105,8 +105,14 @@ func VerifyConfig(config *Config) error {
 	}
 
 	sum := 0
-	for _, pair := range config.BufferSliceSizes {
+	for i, pair := range config.BufferSliceSizes {
 		sum += int(pair.Percent)
+		// a buffer slice is recycled to the list whose slice size equals its capacity, so the sizes must be distinct
+		for _, other := range config.BufferSliceSizes[:i] {
+			if other.Size == pair.Size {
+				return fmt.Errorf("BufferSliceSizes's Size:%d is duplicate", pair.Size)
+			}
+		}
 		if pair.Size > config.ShareMemoryBufferCap {
 			return fmt.Errorf("BufferSliceSizes's Size:%d couldn't greater than ShareMemoryBufferCap:%d",
 				pair.Size, config.ShareMemoryBufferCap)
